@@ -488,9 +488,12 @@ def diff(real, answers):
     Content-identical `produce` lines are unified (the implementation's line is rewritten to the
     model's choice of sids, so that the monitors see one naming)."""
     got = answers[2:]
+    moved = getattr(real, "moved", {})
     for i, ((line, obs, st), g) in enumerate(zip(real.steps, got)):
-        if line.startswith("send "):
-            sid = int(line.split(" ")[1])
+        if line.startswith("send ") or i in moved:
+            # the harness attaches its callback to a send's Deferred when `send_messages` has returned: a firing
+            # of that Deferred inside the call is observed last
+            sid = int(line.split(" ")[1]) if line.startswith("send ") else moved[i]
             tag = "fire %d " % sid
             body = g[:-1]
             g = [o for o in body if not o.startswith(tag)] + [o for o in body if o.startswith(tag)] + g[-1:]
